@@ -25,7 +25,7 @@ ASSUMPTIONS = [
     "title problems are attributed to F22 only by its structural trigger (formatted title empty, a "
     "constant/keyword, or a name of the generated module's own vocabulary)",
 ]
-REQUIRED_COUNTERS = [
+REQUIRED_COUNTERS = ["auto_titles.usable", "pool.half_dunder", 
     "names.mapped", "e2e.instances", "e2e.properties_parsed_twice", "e2e.generated_module", "siblings.sets", "siblings.distinct_ok", "titles.modules_executed",
     "titles.mapped", "titles.distinct_ok", "titles.sets_without_f22_trigger", "cat.Lu", "cat.Ll", "cat.Nd", "cat.No", "cat.Zs", "cat.Po", "cat.Sm", "cat.Mn",
     "cat.Cc", "cat.Cs", "cat.Co", "cat.Cn", "cat.Lo", "cat.Lm", "pool.keywords", "pool.dunder",
@@ -301,6 +301,11 @@ def pools(ctx, sut):
         if idx % ctx.nshards == ctx.shard:
             for variant in range(4):
                 e2e_name(ctx, sut, name, "special", variant=variant)
+    # reserved names with one pair of underscores missing (a rule that completes them lands on the reserved name)
+    half = sorted({"__" + name.strip("_") for name in dunder} | {name.strip("_") + "__" for name in dunder})
+    for idx, name in enumerate(half):
+        if idx % ctx.nshards == ctx.shard:
+            e2e_name(ctx, sut, name, "half_dunder")
     renamed = ["class", "my-prop", "a b", "1st", "é", "for", "__init__", "a.b", ""]
     for idx, name in enumerate(renamed):
         if idx % ctx.nshards == ctx.shard:
@@ -505,6 +510,67 @@ def title_sets(ctx, sut):
             ctx.count("titles.distinct_ok")
 
 
+AUTO_TITLE_NAMES = [
+    "plain", "snake_case", "with space", "a/b", "tilde~x", "v1/", "http://example.com/ns/", "/lead", "a//b", "~", "~~",
+    "~1", "~0", "~01", "a~", "/", "//", "x/y/z", "items", "anyOf", "not", "0", "12", "properties", "definitions",
+    "a#b", "#", "a?b", "a%20b", "%", "a.b", ".json", "é", "日本", "a\\b", "a\"b", "x ", " x", "camelCase", "UPPER",
+]
+
+
+def auto_titles(ctx, sut):
+    """Untitled objects are named after the property they sit under (command-line route).  Whatever the
+    property is called - slashes and tildes are escaped in JSON pointers - a class must come out, under a
+    valid name distinct from its owner's, with the JSON name still recorded on the property."""
+    for idx, name in enumerate(AUTO_TITLE_NAMES):
+        if idx % ctx.nshards != ctx.shard:
+            continue
+        schema = {"type": "object", "title": "Root", "properties": {
+            name: {"type": "object", "properties": {"leaf": {"type": "string"}}},
+            "sibling": {"type": "object", "properties": {"other": {"type": "integer"}}}}}
+        case = {"auto_title_name": name, "schema": schema}
+        ctx.evaluation()
+        ctx.count("auto_titles.documents")
+        segment = name.replace("~", "~0").replace("/", "~1")
+        special = segment in ("items", "anyOf", "oneOf", "allOf", "not") or segment.isdigit()
+        expected = None if special else expected_class_name(segment)
+        finding = "F22" if expected is not None and f22_trigger(expected) else None
+        try:
+            elements = sut.parse_file(schema, ctx.tmpdir(), f"c12auto_{ctx.shard}_{idx}.json")
+            root = elements[0]
+        except BaseException as exc:  # pylint: disable=broad-except
+            ctx.witness("auto_title_unusable", case,
+                        f"generation failed for an untitled object under property {name!r}: "
+                        f"{type(exc).__name__}: {exc!r}"[:300], finding=finding)
+            continue
+        by_source = {prop.source: prop for prop in root.properties.values()}
+        problems = []
+        if name not in by_source:
+            problems.append(f"JSON name {name!r} is not recorded on any property")
+        else:
+            cls = by_source[name].element
+            if not isinstance(cls, sut.ObjectMeta):
+                problems.append("no class was generated for the object")
+            else:
+                cname = cls.__name__
+                if f22_trigger(cname):
+                    problems.append(f"class name {cname!r} is not usable")
+                if cname in ("Root", by_source["sibling"].element.__name__):
+                    problems.append(f"class name {cname!r} is not distinct")
+                if expected is not None and not finding and cname != expected:
+                    ctx.count("auto_titles.name_differs_from_transcription")
+                try:
+                    namespace = {}
+                    exec(compile(sut.serialize_python(*elements), "<generated>", "exec"), namespace)  # pylint: disable=exec-used
+                    if cname not in namespace:
+                        problems.append(f"generated module does not define {cname}")
+                except Exception as exc:  # pylint: disable=broad-except
+                    problems.append(f"generated module unusable: {type(exc).__name__}: {exc!r}"[:200])
+        if problems:
+            ctx.witness("auto_title_unusable", case, "; ".join(problems), finding=finding)
+        else:
+            ctx.count("auto_titles.usable")
+
+
 def f22_trigger(name):
     return (
         name == "" or not name.isidentifier() or keyword.iskeyword(name)
@@ -521,6 +587,7 @@ def run_shard(ctx):
     pools(ctx, sut)
     sibling_sets(ctx, sut)
     title_sets(ctx, sut)
+    auto_titles(ctx, sut)
 
 
 def replay(case, ctx):
@@ -539,6 +606,14 @@ def replay(case, ctx):
             sibling_sets(ctx, sut)
         finally:
             CONFUSABLE_FAMILIES = saved
+    elif "auto_title_name" in case:
+        global AUTO_TITLE_NAMES  # pylint: disable=global-statement
+        saved_names = AUTO_TITLE_NAMES
+        AUTO_TITLE_NAMES = [case["auto_title_name"]] * (ctx.shard + 1)
+        try:
+            auto_titles(ctx, sut)
+        finally:
+            AUTO_TITLE_NAMES = saved_names
     elif "titles" in case:
         ctx.witness("replay_unsupported", case, "title sets replay: rerun the check with the same seed")
     elif "name" in case:
